@@ -83,3 +83,24 @@ reg("C11", EX, "small-scope exhaustive enumeration: all width vectors x profiles
     "placements against the circulant kappa stencil, with linearity checked; 2D: face states for a unit impulse at every cell of every "
     "periodic grid (nx,ny) in {1..4}^2 against the kappa stencil along x on i-faces and along y on j-faces.",
     "profile/mesh lattice only; tolerance 32 eps (+1e-20 regularisation for vanalbada/vanleer)", "DESIGN.md 3/C11")
+reg("C13", EX, "small-scope exhaustive enumeration of data x meshes x configurations, packed windows, and explicit enumeration of real solve runs; differential oracle (problem vs transformed twin)",
+    "The real rhs of every problem of the enumeration (all assignments of an alphabet to all width vectors {1/2,1,2}^n, n<=3 (4), 7 models incl. two "
+    "nozzles, every registered flux, 9-16 reconstructions, boundary sets with every condition name on either side) is compared with the real rhs of "
+    "its mirror image (mesh reflected, cell order reversed, odd quantities negated, boundary conditions exchanged, section law mirrored); all "
+    "5-windows packed for the interior; 2 solve iterations + snapshot for every integrator class; change of units on 8 (4 for regularised "
+    "limiters) power-of-two triples, bitwise for rhs, time step and explicit solves.",
+    "alphabet lattice; reflection to 64 eps of the flux scale; implicit classes to 1e-6 and only where the operator is differentiable (known finding otherwise, certified per case)",
+    "DESIGN.md 3/C13")
+reg("C14", EX, "small-scope exhaustive enumeration of periodic data x all cyclic shifts x configurations; explicit enumeration of real solve runs; differential oracle",
+    "For every assignment of an alphabet to n=1..5 (6) periodic cells and every cyclic shift, every model, registered flux and reconstruction, "
+    "the real rhs of the shifted data equals the shifted rhs (round-off in 1D with the conditioning of the linspace mesh stated, bitwise census "
+    "on exactly representable meshes); 2D: all assignments on grids {1,2,3}^2 (4) and all (sx,sy) shifts, bit for bit; two solve iterations + "
+    "snapshot for every integrator class (1D, implicit to 1e-6) and every explicit class (2D, bitwise).",
+    "alphabet lattice; 1D tolerance 32 eps x (1+8(|x0|+L)/dx) of the flux scale", "DESIGN.md 3/C14")
+reg("C15", EX, "small-scope exhaustive enumeration of 2D data x grids x boundary assignments; differential oracle against the real 1D operator and the transformed 2D problem",
+    "Rows (columns) of the real 2D rhs equal the real 1D rhs for every 1D data assignment extended invariantly, 2 fluxes, 6 reconstruction "
+    "pairs, all 26 (left,right) pairs of the six condition names x {per,sym} on the other sides, both orientations, and the transverse "
+    "momentum residual vanishes; the rhs of the transposed, x-reflected and y-reflected problem equals the transformed rhs for all 676 "
+    "admissible assignments of the six names to four sides on grids with <= 4 cells and 12 boundary sets on 2x3, 3x2, 3x3 (4x2, 2x4), "
+    "including insup with an oblique angle.",
+    "alphabet lattice; tolerance 64 eps of the flux scale over min(dx,dy)", "DESIGN.md 3/C15")
